@@ -90,7 +90,7 @@ pub fn install_panic_hook() {
                 .unwrap_or_default();
             let bt = std::backtrace::Backtrace::force_capture().to_string();
             let (repo_frame, backtrace_head) = parse_backtrace(&bt);
-            let quiet = QUIET.with(|q| *q.borrow());
+            let quiet = QUIET.with(|q| *q.borrow()) && std::env::var("VERIF_LOUD").is_err();
             if !quiet {
                 eprintln!("PANIC {} at {}\n{}", message, location, bt);
             }
